@@ -216,7 +216,8 @@ func (op *Element[T]) Copy(opCopy *Element[T]) {
 				op.MetaData = &MetaData{}
 			}
 
-			*op.MetaData = *opCopy.MetaData
+			// The scale holds big numbers: they are duplicated, not shared with the source
+			*op.MetaData = *opCopy.MetaData.CopyNew()
 		}
 	}
 }
